@@ -211,7 +211,7 @@ def run(ctx):
         "status_histogram": status_hist, "outcome_histogram": outcome, "issued_by_type_and_key": kinds,
         "kerberos_san_observation": san, "disagreements": len(dis), "judged": len(jidx) - ncfg, "judged_failures": len(ctx.violations),
         "source_facts": {k: facts.get("c02", {}).get(k) for k in ("standardExtensions", "skipEmptyKey", "sshKeyTypes", "mismatchStatus")},
-        "samples": [{"op": lines[i], "impl": impl[i][:400], "model": model[i][:400] if i < len(model) else None} for i in (1, 5, 6, 17, 18, 60)],
+        "samples": [{"op": lines[i], "impl": impl[i][:400], "model": model[i][:400] if i < len(model) else None} for i in (1, 5, 6, 17, 18, 60) if i < len(lines)],
     })
     ctx.assumptions += [
         "signature validity and chain verification are cryptography: observed by the harness on every returned certificate (ssh.CertChecker.CheckCert, "
